@@ -211,6 +211,52 @@ func (e *Extractor) Tables(f *types.Func) []*Table {
 		}
 		return nil
 	}
+	// env: values of loop variables of constant-trip loops being unrolled; defs: single `x := expr` definitions
+	// of int locals (never reassigned), so that `lo := i * K; data[lo:lo+K]` evaluates under env.
+	env := map[types.Object]int64{}
+	defs := singleDefs(info, d.decl.Body)
+	var evalInt func(x ast.Expr, depth int) (int64, bool)
+	evalInt = func(x ast.Expr, depth int) (int64, bool) {
+		if x == nil || depth > 8 {
+			return 0, false
+		}
+		if v, ok := constInt(info, x); ok {
+			return v, true
+		}
+		switch y := ast.Unparen(x).(type) {
+		case *ast.Ident:
+			obj := info.Uses[y]
+			if v, ok := env[obj]; ok {
+				return v, true
+			}
+			if len(env) > 0 {
+				if rhs, ok := defs[obj]; ok {
+					return evalInt(rhs, depth+1)
+				}
+			}
+		case *ast.BinaryExpr:
+			a, ok1 := evalInt(y.X, depth+1)
+			b, ok2 := evalInt(y.Y, depth+1)
+			if ok1 && ok2 {
+				switch y.Op {
+				case token.ADD:
+					return a + b, true
+				case token.SUB:
+					return a - b, true
+				case token.MUL:
+					return a * b, true
+				}
+			}
+		case *ast.CallExpr:
+			// integer conversion int(x), uint32(x)
+			if len(y.Args) == 1 {
+				if tv, ok := info.Types[y.Fun]; ok && tv.IsType() {
+					return evalInt(y.Args[0], depth+1)
+				}
+			}
+		}
+		return 0, false
+	}
 	// sliceRange: base[lo:hi] with constant bounds
 	sliceRange := func(x ast.Expr) (types.Object, int64, int64, bool) {
 		se, ok := ast.Unparen(x).(*ast.SliceExpr)
@@ -223,7 +269,7 @@ func (e *Extractor) Tables(f *types.Func) []*Table {
 		}
 		var lo int64
 		if se.Low != nil {
-			v, ok := constInt(info, se.Low)
+			v, ok := evalInt(se.Low, 0)
 			if !ok {
 				return nil, 0, 0, false
 			}
@@ -235,7 +281,7 @@ func (e *Extractor) Tables(f *types.Func) []*Table {
 			}
 			return nil, 0, 0, false
 		}
-		hi, ok := constInt(info, se.High)
+		hi, ok := evalInt(se.High, 0)
 		if !ok {
 			return nil, 0, 0, false
 		}
@@ -269,11 +315,28 @@ func (e *Extractor) Tables(f *types.Func) []*Table {
 				add(b, true, Range{Lo: lo, Hi: hi, Field: "fill", How: "fill loop", Pos: x.Pos()})
 				return false
 			}
+			if iv, lo, hi, ok := constTripFor(info, x); ok && usesVarInSlice(info, x.Body, iv, defs) {
+				for j := lo; j < hi; j++ {
+					env[iv] = j
+					ast.Inspect(x.Body, visitStmt)
+				}
+				delete(env, iv)
+				return false
+			}
+		case *ast.RangeStmt:
+			if iv, n, ok := constTripRange(info, x); ok && usesVarInSlice(info, x.Body, iv, defs) {
+				for j := int64(0); j < n; j++ {
+					env[iv] = j
+					ast.Inspect(x.Body, visitStmt)
+				}
+				delete(env, iv)
+				return false
+			}
 		case *ast.AssignStmt:
 			for i, lhs := range x.Lhs {
 				if ie, ok := ast.Unparen(lhs).(*ast.IndexExpr); ok {
 					if b := baseOf(ie.X); b != nil {
-						if k, ok := constInt(info, ie.Index); ok {
+						if k, ok := evalInt(ie.Index, 0); ok {
 							f := ""
 							if i < len(x.Rhs) {
 								f = fieldOf(x.Rhs[i])
@@ -331,6 +394,7 @@ func (e *Extractor) Tables(f *types.Func) []*Table {
 	for _, pair := range bases {
 		for _, t := range pair {
 			if len(t.Ranges) > 0 {
+				t.Ranges = dedupeRanges(t.Ranges)
 				sort.Slice(t.Ranges, func(i, j int) bool {
 					if t.Ranges[i].Lo != t.Ranges[j].Lo {
 						return t.Ranges[i].Lo < t.Ranges[j].Lo
@@ -344,6 +408,236 @@ func (e *Extractor) Tables(f *types.Func) []*Table {
 	sort.Slice(out, func(i, j int) bool { return out[i].Name() < out[j].Name() })
 	e.tables[f] = out
 	return out
+}
+
+// dedupeRanges drops ranges recorded more than once for one source position with the same bounds (the
+// loop-independent accesses of an unrolled constant-trip loop are visited once per iteration).
+func dedupeRanges(rs []Range) []Range {
+	type key struct {
+		lo, hi int64
+		pos    token.Pos
+		how    string
+	}
+	seen := map[key]bool{}
+	var out []Range
+	for _, r := range rs {
+		k := key{r.Lo, r.Hi, r.Pos, r.How}
+		if seen[k] {
+			continue
+		}
+		seen[k] = true
+		out = append(out, r)
+	}
+	return out
+}
+
+// singleDefs maps every local defined exactly once by `x := expr` (single-valued) and never assigned again
+// to its defining expression.
+func singleDefs(info *types.Info, body *ast.BlockStmt) map[types.Object]ast.Expr {
+	defs := map[types.Object]ast.Expr{}
+	bad := map[types.Object]bool{}
+	ast.Inspect(body, func(n ast.Node) bool {
+		switch x := n.(type) {
+		case *ast.AssignStmt:
+			for i, lhs := range x.Lhs {
+				id, ok := lhs.(*ast.Ident)
+				if !ok {
+					continue
+				}
+				if x.Tok == token.DEFINE {
+					if obj := info.Defs[id]; obj != nil {
+						if len(x.Lhs) == len(x.Rhs) {
+							if _, dup := defs[obj]; dup {
+								bad[obj] = true
+							}
+							defs[obj] = x.Rhs[i]
+						} else {
+							bad[obj] = true
+						}
+						continue
+					}
+				}
+				if obj := info.Uses[id]; obj != nil {
+					bad[obj] = true
+				}
+			}
+		case *ast.IncDecStmt:
+			if id, ok := x.X.(*ast.Ident); ok {
+				if obj := info.Uses[id]; obj != nil {
+					bad[obj] = true
+				}
+			}
+		case *ast.UnaryExpr:
+			if x.Op == token.AND {
+				if id, ok := ast.Unparen(x.X).(*ast.Ident); ok {
+					if obj := info.Uses[id]; obj != nil {
+						if b, ok := obj.Type().Underlying().(*types.Basic); ok && b.Info()&types.IsInteger != 0 {
+							bad[obj] = true
+						}
+					}
+				}
+			}
+		}
+		return true
+	})
+	for o := range bad {
+		delete(defs, o)
+	}
+	return defs
+}
+
+const maxUnroll = 256
+
+// constTripFor recognises `for i := C1; i < C2; i++ {…}` whose body never assigns i.
+func constTripFor(info *types.Info, fs *ast.ForStmt) (types.Object, int64, int64, bool) {
+	init, ok := fs.Init.(*ast.AssignStmt)
+	if !ok || init.Tok != token.DEFINE || len(init.Lhs) != 1 || len(init.Rhs) != 1 {
+		return nil, 0, 0, false
+	}
+	iv, ok := init.Lhs[0].(*ast.Ident)
+	if !ok {
+		return nil, 0, 0, false
+	}
+	obj := info.Defs[iv]
+	lo, ok := constInt(info, init.Rhs[0])
+	if !ok || obj == nil {
+		return nil, 0, 0, false
+	}
+	cond, ok := fs.Cond.(*ast.BinaryExpr)
+	if !ok || cond.Op != token.LSS {
+		return nil, 0, 0, false
+	}
+	if id, ok := cond.X.(*ast.Ident); !ok || info.Uses[id] != obj {
+		return nil, 0, 0, false
+	}
+	hi, ok := constInt(info, cond.Y)
+	if !ok || hi-lo > maxUnroll || hi <= lo {
+		return nil, 0, 0, false
+	}
+	if inc, ok := fs.Post.(*ast.IncDecStmt); !ok || inc.Tok != token.INC {
+		return nil, 0, 0, false
+	} else if id, ok := inc.X.(*ast.Ident); !ok || info.Uses[id] != obj {
+		return nil, 0, 0, false
+	}
+	if assignsVar(info, fs.Body, obj) || hasLoopExit(fs.Body) {
+		return nil, 0, 0, false
+	}
+	return obj, lo, hi, true
+}
+
+// constTripRange recognises `for i := range X` where X is an array, pointer to array or constant integer.
+func constTripRange(info *types.Info, rs *ast.RangeStmt) (types.Object, int64, bool) {
+	if rs.Tok != token.DEFINE || rs.Key == nil {
+		return nil, 0, false
+	}
+	iv, ok := rs.Key.(*ast.Ident)
+	if !ok || iv.Name == "_" {
+		return nil, 0, false
+	}
+	obj := info.Defs[iv]
+	if obj == nil {
+		return nil, 0, false
+	}
+	var n int64 = -1
+	if k, ok := constInt(info, rs.X); ok {
+		n = k
+	} else if tv, ok := info.Types[rs.X]; ok {
+		t := tv.Type.Underlying()
+		if p, ok := t.(*types.Pointer); ok {
+			t = p.Elem().Underlying()
+		}
+		if a, ok := t.(*types.Array); ok {
+			n = a.Len()
+		}
+	}
+	if n <= 0 || n > maxUnroll || assignsVar(info, rs.Body, obj) || hasLoopExit(rs.Body) {
+		return nil, 0, false
+	}
+	return obj, n, true
+}
+
+func assignsVar(info *types.Info, body *ast.BlockStmt, obj types.Object) bool {
+	found := false
+	ast.Inspect(body, func(n ast.Node) bool {
+		switch x := n.(type) {
+		case *ast.AssignStmt:
+			for _, lhs := range x.Lhs {
+				if id, ok := lhs.(*ast.Ident); ok && info.Uses[id] == obj {
+					found = true
+				}
+			}
+		case *ast.IncDecStmt:
+			if id, ok := x.X.(*ast.Ident); ok && info.Uses[id] == obj {
+				found = true
+			}
+		}
+		return !found
+	})
+	return found
+}
+
+// hasLoopExit: a break or continue that may skip part of an iteration (a return on an error path is fine:
+// the table describes the successful encoding).
+func hasLoopExit(body *ast.BlockStmt) bool {
+	found := false
+	ast.Inspect(body, func(n ast.Node) bool {
+		switch x := n.(type) {
+		case *ast.BranchStmt:
+			if x.Tok == token.BREAK || x.Tok == token.CONTINUE || x.Tok == token.GOTO {
+				found = true
+			}
+		case *ast.FuncLit:
+			return false
+		}
+		return !found
+	})
+	return found
+}
+
+// usesVarInSlice: some slice bound or index in body mentions iv, directly or through single definitions.
+func usesVarInSlice(info *types.Info, body *ast.BlockStmt, iv types.Object, defs map[types.Object]ast.Expr) bool {
+	var mentions func(x ast.Expr, depth int) bool
+	mentions = func(x ast.Expr, depth int) bool {
+		if x == nil || depth > 8 {
+			return false
+		}
+		hit := false
+		ast.Inspect(x, func(n ast.Node) bool {
+			if id, ok := n.(*ast.Ident); ok {
+				obj := info.Uses[id]
+				if obj == iv {
+					hit = true
+				} else if rhs, ok := defs[obj]; ok && mentions(rhs, depth+1) {
+					hit = true
+				}
+			}
+			return !hit
+		})
+		return hit
+	}
+	found := false
+	ast.Inspect(body, func(n ast.Node) bool {
+		switch x := n.(type) {
+		case *ast.SliceExpr:
+			if mentions(x.Low, 0) || mentions(x.High, 0) {
+				found = true
+			}
+		case *ast.IndexExpr:
+			if isByteSliceOrArray(info, x.X) && mentions(x.Index, 0) {
+				found = true
+			}
+		}
+		return !found
+	})
+	return found
+}
+
+func isByteSliceOrArray(info *types.Info, x ast.Expr) bool {
+	tv, ok := info.Types[x]
+	if !ok {
+		return false
+	}
+	return isByteSlice(tv.Type) || byteArrayLen(tv.Type) >= 0
 }
 
 // curInfo is the types.Info of the function being extracted (single-threaded use).
@@ -717,8 +1011,24 @@ func paramObj(d *declInfo, i int) types.Object {
 // `for i := a; i < b; i++ { p[i] = … }` or a Put…(p[a:b], …)); the call passes
 // constants for a and b.
 func (e *Extractor) helperRange(info *types.Info, callee *types.Func, call *ast.CallExpr, pi int) (int64, int64, bool) {
+	ai, bi, ok := e.helperParams(callee, pi, 0)
+	if !ok || ai >= len(call.Args) || bi >= len(call.Args) {
+		return 0, 0, false
+	}
+	lo, ok1 := constInt(info, call.Args[ai])
+	hi, ok2 := constInt(info, call.Args[bi])
+	if !ok1 || !ok2 {
+		return 0, 0, false
+	}
+	return lo, hi, true
+}
+
+// helperParams: callee's parameter #pi is a byte slice p and its int parameters #ai, #bi are such that the body
+// writes exactly p[a:b): a loop `for i := a; i < b; i++ { p[i] = … }`, a Put…(p[a:b], …), a length-enforced
+// copy, or a call g(…, p, …, a, b, …) of another such helper with p, a and b passed through unchanged.
+func (e *Extractor) helperParams(callee *types.Func, pi int, depth int) (int, int, bool) {
 	d := e.decls[callee]
-	if d == nil {
+	if d == nil || depth > 3 {
 		return 0, 0, false
 	}
 	p := paramObj(d, pi)
@@ -755,11 +1065,34 @@ func (e *Extractor) helperRange(info *types.Info, callee *types.Func, call *ast.
 				aObj, bObj = cinfo.Uses[lo], cinfo.Uses[hi]
 			}
 		case *ast.CallExpr:
-			// p[a:b] handed to a writer: a binary Put primitive fills its whole argument;
-			// copy(p[a:b], src) fills it only if len(src) == b-a is enforced by the helper itself.
 			if len(x.Args) == 0 {
 				return true
 			}
+			// pass-through to another range-writer helper
+			var g *types.Func
+			switch f := x.Fun.(type) {
+			case *ast.Ident:
+				g, _ = cinfo.Uses[f].(*types.Func)
+			case *ast.SelectorExpr:
+				g, _ = cinfo.Uses[f.Sel].(*types.Func)
+			}
+			if g != nil && g != callee && e.decls[g] != nil {
+				for j, a := range x.Args {
+					id, ok := ast.Unparen(a).(*ast.Ident)
+					if !ok || cinfo.Uses[id] != p {
+						continue
+					}
+					if gi, gj, ok := e.helperParams(g, j, depth+1); ok && gi < len(x.Args) && gj < len(x.Args) {
+						lo, ok1 := ast.Unparen(x.Args[gi]).(*ast.Ident)
+						hi, ok2 := ast.Unparen(x.Args[gj]).(*ast.Ident)
+						if ok1 && ok2 && !assignsVarNode(cinfo, d.decl.Body, cinfo.Uses[lo]) && !assignsVarNode(cinfo, d.decl.Body, cinfo.Uses[hi]) {
+							aObj, bObj = cinfo.Uses[lo], cinfo.Uses[hi]
+						}
+					}
+				}
+			}
+			// p[a:b] handed to a writer: a binary Put primitive fills its whole argument;
+			// copy(p[a:b], src) fills it only if len(src) == b-a is enforced by the helper itself.
 			se, ok := ast.Unparen(x.Args[0]).(*ast.SliceExpr)
 			if !ok {
 				return true
@@ -804,13 +1137,12 @@ func (e *Extractor) helperRange(info *types.Info, callee *types.Func, call *ast.
 			k++
 		}
 	}
-	if ai < 0 || bi < 0 || ai >= len(call.Args) || bi >= len(call.Args) {
+	if ai < 0 || bi < 0 {
 		return 0, 0, false
 	}
-	lo, ok1 := constInt(info, call.Args[ai])
-	hi, ok2 := constInt(info, call.Args[bi])
-	if !ok1 || !ok2 {
-		return 0, 0, false
-	}
-	return lo, hi, true
+	return ai, bi, true
+}
+
+func assignsVarNode(info *types.Info, body *ast.BlockStmt, obj types.Object) bool {
+	return obj == nil || assignsVar(info, body, obj)
 }
